@@ -105,6 +105,13 @@ MISSED_FIRST = {  # seeds not reported by the checks as they stood when the seed
     "C15-r7C": "was reported by C01.6 for a false reason (two extends in exclusive arms counted as two); extends are now counted per path. C15.3 follows one read in __next__ and the rewrite spells the same read twice (before and inside a `while size == 0` loop): identical reads now count as one, and C15.3 reports the slip - with the align switch on, the handler reaches `... and self.next_file()` before the piece is complete, so the last file's tail is left short",
     "C16-r7C": "undecided (exit 2): the padding generator's emissions are not recognised in the reshaped loop",
     "C17-r7C": "reported by C17.2 (the temporary file is never closed before the replace); C07.2 reported it as well for a false reason (isinstance guard on a value that is None when the field is not named), now evaluated",
+    "C01-r8C": "was reported by C01.6 for a false reason (a continuation buffer capped with min(), which the clean twin has as well - now undecided); the hand-over tests are now evaluated over what next_file() returns when it opened a file (constants, byte counts that are 0 for an empty file) and C01.6 / C15.3 report the slip itself: `not self.next_file()` ends the iteration at an empty file in the middle of the list",
+    "C03-r8C": "silent at first contact; the per-file hasher's options are now a judged fact (C03.2, C02.1): options chosen file by file are undecided (exit 2) - which files end up padded is a question about two traversal orders the fact table does not answer",
+    "C04-r8C": "was reported by C16.7 only, for a false reason (reader selection `exists and getsize > 0`, which the clean twin has as well - now accepted: an empty file has no piece that could verify); new obligation C04.6 / C16.6: the stand-in hasher is told what is still owed BEFORE advance() books the piece - reports the slip itself",
+    "C12-r8C": "was reported by C12.1 for a false reason (int() inside try/except ValueError was taken for an escaping error - the handler's raise is now followed); sign-blind primitives (bit_length, bin, bit_count) make the negatives of powers of two cells of their own, each spelling of the power-of-two test is evaluated as written for x <= 0, and C12.1 reports the slip itself: -32768 is returned as valid",
+    "C13-r8C": "silent for C13 at first contact (C14.4 undecided); C13.9 now asks that a continued file be left only where the code says nothing of it remains (a test that speaks of the remainder, or `remainder = 0` beside the advance); `if target:` is undecided (exit 2)",
+    "C16-r8C": "was reported by C05.5 only, for a false reason (an attribute holding a digest made from the piece length is not a piece length - now skipped); new obligation C04.5 / C16.3: the hash handed out for a v1 piece is the digest of the piece read in this call, a stored digest only under identity / equality with the buffer it was made from - reports the slip itself (a flag and a length test do not look at the content)",
+    "C19-r8C": "silent at first contact: the taint model accepted anything downstream of the containment check; C19.1 now reports a text-rewriting operation (replace, strip, expanduser, ...) applied AFTER the check - the path written is not the path checked",
     "C20-r7C": "was reported by C20.3 and C08 for false reasons (stores driven by a local table were not read); local dictionary tables walked with .items() are now written out row by row, their values taken where the display is evaluated - and C20.4 reports the slip itself: the list is copied BEFORE the recovery arm removes a swallowed content path",
 }
 
